@@ -9,18 +9,31 @@ def txt (cs : List Char) : Json := .str (String.ofList cs)
 def err (e : Err) : Json := ofErr e.toString
 
 def jctx (j : Json) : R Ctx := do
-  pure { experiments := ← jstrs (← jget j "experiments"), silac := ← jint (← jget j "silac"), tmt := ← jint (← jget j "tmt") }
+  let tg ← match jgetOpt j "triqler_groups" with
+    | some x => jnat x
+    | none => pure 0
+  pure { experiments := ← jstrs (← jget j "experiments"), silac := ← jint (← jget j "silac"),
+         tmt := ← jint (← jget j "tmt"), triqlerGroups := tg }
 
 def genNames : List (String × Gen) :=
   [("ProteinAnnotationsColumns", .annotations), ("DiannProteinAnnotationsColumns", .diannAnnotations),
    ("UniquePeptideCountColumns", .uniqueCounts), ("IdentificationTypeColumns", .idType),
    ("SummedIntensityAndIbaqColumns", .sumIbaq), ("LFQIntensityColumns", .lfq),
-   ("SequenceCoverageColumns", .coverage), ("TMTIntensityColumns", .tmt), ("EvidenceIdsColumns", .evidenceIds)]
+   ("SequenceCoverageColumns", .coverage), ("TMTIntensityColumns", .tmt), ("TriqlerIntensityColumns", .triqler),
+   ("EvidenceIdsColumns", .evidenceIds)]
 
 def genName (g : Gen) : String :=
   match genNames.find? (fun p => p.2 == g) with
   | some p => p.1
   | none => "?"
+
+/-- a history step: a generator class name, or `"-<header>"` for `remove_column(header)` -/
+def jop (j : Json) : R Op := do
+  let s ← jstr j
+  if s.startsWith "-" then pure (.remove (s.drop 1).toString) else
+  match genNames.lookup s with
+  | some g => pure (.gen g)
+  | none => .error s!"unknown generator {s}"
 
 def jgen (j : Json) : R Gen := do
   let s ← jstr j
@@ -77,8 +90,8 @@ def handleTable (j : Json) : R Json := do
         ("rows", ofList (fun (r : Row) => Json.arr #[.str r.proteinIds, ofNat r.extra.length]) t'.rows),
         ("columns", ofStrs (w.columns.map genName))])
   | none =>
-    let gs ← jlist jgen (← jget j "history")
-    match applyAll ctx t gs with
+    let ops ← jlist jop (← jget j "history")
+    match applyOps ctx t ops with
     | .error e => pure (err e)
     | .ok t' => pure (ofTable t')
 
